@@ -91,7 +91,9 @@ func (x *g) alphabet(allowEmpty bool) {
 		x.levels = append(x.levels, "")
 	}
 	if r.Bool(3, 10) {
-		x.levels = append(x.levels, "c", "dd", "sensor", "x y")
+		// ("$t": a '$' is special only as the first character of a topic,
+		// topic() and filter() never put it on the first level)
+		x.levels = append(x.levels, "c", "dd", "sensor", "x y", "$t")
 	}
 	x.flevels = append(append([]string{}, x.levels...), "+", "#")
 }
@@ -104,7 +106,11 @@ func (x *g) topic() string {
 		if i > 0 {
 			t += "/"
 		}
-		t += x.levels[r.Intn(len(x.levels))]
+		l := x.levels[r.Intn(len(x.levels))]
+		if i == 0 && l == "$t" {
+			l = "a"
+		}
+		t += l
 	}
 	if t == "" {
 		t = x.levels[0]
@@ -123,6 +129,9 @@ func (x *g) filter() string {
 		l := x.flevels[r.Intn(len(x.flevels))]
 		if l == "#" && i != n-1 {
 			l = "+"
+		}
+		if i == 0 && l == "$t" {
+			l = "a"
 		}
 		f += l
 	}
